@@ -25,10 +25,42 @@ def _extract(wd):
     return extract_play.emit(wd, SPECS)
 
 
+FUNCS = ["OPNMIDIplay::realTime_SysEx", "OPNMIDIplay::doUniversalSysEx", "OPNMIDIplay::doRolandSysEx", "OPNMIDIplay::doYamahaSysEx"]
+UW = "spec_bytes_named.0:65,spec_MIDIchannel_eq.0:129,spec_sysex_strict.0:65,doRolandSysEx.0:64,doUniversalSysEx.0:66"
+
+
+def replay(g, obligation, wit, workroot):
+    """Library replay: the counterexample's message and device id are sent to a real instance through the public API."""
+    from vlib import libreplay
+    size = None
+    msg = []
+    for i in range(64):
+        v = wit.get("in_msg[%dl]" % i)
+        msg.append(int(v) if v is not None else 0)
+    size = wit.get("in_size"); devid = wit.get("in_devid")
+    if size is None or devid is None:
+        return dict(reproduced=False, note="counterexample does not name size/device id")
+    size = int(str(size).rstrip("ul")); devid = int(str(devid).rstrip("ul"))
+    hexmsg = "".join("%02x" % b for b in msg[:size])
+    r = libreplay.run_driver(workroot, "replay/sysex_driver.cpp", [devid & 0x7F, hexmsg])
+    return dict(reproduced=(r["rc"] == 1 and "REPLAY-VIOLATION" in r["stdout"]), driver="replay/sysex_driver.cpp",
+                args=[devid, hexmsg], output=r["stdout"], stderr=r["stderr"][-500:])
+
+
 def groups(tier):
-    return [Group("sysex_contract", "harness/sysex_h.c", "h_realTime_SysEx", enforce="realTime_SysEx",
-                  replace=["realTime_ResetState", "noteUpdateAll"], extract=_extract,
-                  unwindset="spec_bytes_named.0:65,spec_MIDIchannel_eq.0:129,spec_table_same_except_drum_flag_of.0:17,spec_sysex_strict.0:65,doRolandSysEx.0:64,doUniversalSysEx.0:66",
-                  required=[r"postcondition", r"assigns"], timeout=600,
-                  funcs=["OPNMIDIplay::realTime_SysEx", "OPNMIDIplay::doUniversalSysEx", "OPNMIDIplay::doRolandSysEx", "OPNMIDIplay::doYamahaSysEx"],
-                  note="checksum loop unwound to the 64-byte domain of the property (complete for that domain)")]
+    gs = []
+    parts = {1: "acceptance predicate: accepted => well-formed/addressed/exact length/checksum, documented messages => accepted",
+             2: "rejected => mode, master volume, reset/update call counters unchanged",
+             3: "accepted => documented effect on the mode and exactly one controller reset for the mode messages, none otherwise",
+             4: "accepted => master volume takes the message's value (and only then changes)"}
+    for part, what in parts.items():
+        gs.append(Group("sysex_contract_part%d" % part, "harness/sysex_h.c", "h_realTime_SysEx", enforce="realTime_SysEx",
+                        replace=["realTime_ResetState", "noteUpdateAll"], extract=_extract, unwindset=UW,
+                        defines=["SPEC_PART=%d" % part] + ([] if part == 1 else ["NO_REACH"]), required=[r"postcondition", r"assigns"], timeout=900, funcs=FUNCS,
+                        note=what + "; checksum loop unwound to the 64-byte domain of the property (complete for that domain)"))
+    for k in range(16):
+        gs.append(Group("sysex_channel_state_ch%d" % k, "harness/sysex_h.c", "h_realTime_SysEx", enforce="realTime_SysEx",
+                        replace=["realTime_ResetState", "noteUpdateAll"], extract=_extract, unwindset=UW,
+                        defines=["SPEC_CH=%d" % k], required=[r"postcondition"], timeout=600, funcs=FUNCS,
+                        note="rejected / master-volume / drum-part messages leave every field of channel %d unchanged (drum part: exactly its own flag, set from the data byte)" % k))
+    return gs
